@@ -681,6 +681,8 @@ func c06(r *Run) {
 
 	c06Flavours(r)
 	c06Names(r)
+	parseFileRel(r, "conc kind=stale ")
+	c06Helpers(r)
 	regFreePairings(r, "conc kind=stale ", "after a registration has returned, a lookup by one of the template's names does not give the version registered under it", 4, r.N(2000, 50000))
 	c06DeepIncludes(r)
 	c06ModelTie(r)
@@ -782,7 +784,8 @@ func c06DeepIncludes(r *Run) {
 		dyntpl.RegisterTplKey(key, tree)
 		return true
 	}
-	if !reg("c06deepC", "c0") || !reg("c06deepB", "b({% include c06deepC %})({% include c06deepC %})") || !reg("c06deepA", "a[{% include c06deepB %}][{% include c06deepB %}]") ||
+	// (the inner includes name a MISSING template first: the lookup walks a list of names while writers wait for the lock)
+	if !reg("c06deepC", "c0") || !reg("c06deepB", "b({% include c06deepNone c06deepC %})({% . c06deepNone c06deepNone2 c06deepC %})") || !reg("c06deepA", "a[{% include c06deepB %}][{% include c06deepNone c06deepB %}]") ||
 		!reg("c06deepH", "h<{% include c06deepA %}>") {
 		r.Internal("C06 deep includes: templates do not parse")
 		return
@@ -1178,5 +1181,74 @@ func c06ModelTie(r *Run) {
 		if ans[i] != h.want {
 			r.TieBreak("sequential history: Go registry vs interleaving model (conc)", map[string]any{"history": h.desc, "request": h.line}, h.want, ans[i])
 		}
+	}
+}
+
+// c06Helpers: renders that use DIFFERENT condition helpers, modifiers (long names, short names, namespaced) and globals at
+// the same time, each goroutine with its own context and its own template: every render returns what it returns
+// running alone (the helper / modifier / global registries are read by all renderers; a getter that remembers the
+// last lookup without synchronisation hands one goroutine the other's function).
+func c06Helpers(r *Run) {
+	tpls := []string{
+		`{% if lenGt0(x) %}G{% else %}-{% endif %}{% if vyes(x) %}Y{% else %}n{% endif %}`,
+		`{% if lenEq0(x) %}E{% else %}-{% endif %}{% if vfalse(x) %}F{% else %}t{% endif %}`,
+		`{% if vns::len(x) %}L{% else %}-{% endif %}{% if lenGtq0(y) %}Q{% else %}q{% endif %}`,
+		`{% switch %}{% case vtrue() %}T{% default %}D{% endswitch %}{% if veq(x, y) %}=={% else %}!={% endif %}`,
+		`{%= x|default("d")|he %}{%= y|htmlEscape %}{%= z|def("z") %}`,
+		`{%= x|jsonQuote %}{%= y|ue %}{%= x|ifThen("then") %}`,
+		`{%= n|math::add(2) %}|{%= n|math::mul(3)|roundPrec(1) %}`,
+		`{% if vns::cap(y) %}C{% else %}c{% endif %}{%= y|vcat("a", x) %}`,
+	}
+	var keys []string
+	for _, src := range tpls {
+		k, err, pan := regTpl(src, true)
+		if err != nil || pan != "" {
+			r.Internal("C06 helpers: template does not parse: " + src)
+			return
+		}
+		keys = append(keys, k)
+	}
+	mk := func(g int) *dyntpl.Ctx {
+		c := dyntpl.NewCtx()
+		c.SetString("x", []string{"yes", "no", "<b>"}[g%3])
+		c.SetString("y", []string{"", "yes", "a b"}[g%3])
+		c.SetStatic("n", float64(g)+0.25)
+		return c
+	}
+	want := make([]string, len(tpls))
+	for g := range tpls {
+		res := renderSafe(keys[g], mk(g))
+		want[g] = string(res.Out) + " " + res.ErrStr()
+	}
+	rounds := r.N(20000, 300000)
+	var mu sync.Mutex
+	var bads []map[string]any
+	var wg sync.WaitGroup
+	start := make(chan struct{})
+	for g := range tpls {
+		wg.Add(1)
+		go func(g int) {
+			defer wg.Done()
+			ctx := mk(g)
+			<-start
+			for it := 0; it < rounds; it++ {
+				res := renderSafe(keys[g], ctx)
+				if got := string(res.Out) + " " + res.ErrStr(); got != want[g] {
+					mu.Lock()
+					if len(bads) < 3 {
+						bads = append(bads, map[string]any{"template": tpls[g], "output": got, "output_alone": want[g], "iteration": it, "goroutines": len(tpls)})
+					}
+					mu.Unlock()
+					return
+				}
+			}
+		}(g)
+	}
+	close(start)
+	wg.Wait()
+	r.Count("helpers-concurrent", true)
+	r.Dist["helper_concurrent_renders"] = rounds * len(tpls)
+	for _, b := range bads {
+		r.Violate("conc kind=mixed helpers tpl="+b["template"].(string), "a render that runs while other goroutines render templates with OTHER helpers / modifiers gives another result than running alone", b)
 	}
 }
